@@ -17,6 +17,7 @@ package c17
 //	LOOPEXIT                 eventLoop returned (the executor would disconnect / exit)
 //	INCONCLUSIVE <why>       harness trouble (timing inversion, ceiling on something that is not an observation)
 //	HANG <i>                 step i did not complete within the generous ceiling
+//	NOTIMER                  the TASK_RUNNING timer of a basic/hook task did not fire within the ceiling
 //	ALIVE <0|1>              after the schedule: is any process of any child's process group still alive
 //	DONE
 //
@@ -247,6 +248,7 @@ type runner struct {
 	started int // children whose pid line was seen
 	curMark int // record index at the latest successful start
 	launchT time.Time
+	fed     int32 // events handed to the loop so far
 	port    int
 }
 
@@ -269,16 +271,18 @@ func (r *runner) waitFor(cond func() bool, ceiling time.Duration) bool {
 
 func (r *runner) loopEnded() bool { return atomic.LoadInt32(&r.a.loopEnd) == 1 }
 
-// feed hands one event to the event loop and waits until its handler has returned
-// (the loop asks for the next event) or the loop ended.
+// feed hands one event to the event loop and waits until its handler has returned or the loop ended.
+// eventLoop asks for event k+1 (a new nextEventNotify goroutine entering Decode) only after the handler of
+// event k has returned, so "handler k done" = "Decode has been entered k+1 times".
 func (r *runner) feed(e *executor.Event) bool {
-	n := atomic.LoadInt32(&r.a.decodes)
+	r.fed++
+	k := r.fed
 	select {
 	case r.a.events <- e:
 	case <-time.After(stepCeiling):
 		return false
 	}
-	return r.waitFor(func() bool { return atomic.LoadInt32(&r.a.decodes) > n || r.loopEnded() }, stepCeiling)
+	return r.waitFor(func() bool { return atomic.LoadInt32(&r.a.decodes) >= k+1 || r.loopEnded() }, stepCeiling)
 }
 
 func script(beh string) string {
@@ -597,12 +601,20 @@ func runnerMain(input, dir string) {
 			a.say("RES %d ok", i)
 		case "kill":
 			m := a.mark()
+			hadTerminal := a.count(func(x rec) bool { return x.kind == "S" && isTerminal(x.a) }, 0) > 0
 			if !r.feed(&executor.Event{Type: executor.Event_KILL, Kill: &executor.Event_Kill{TaskID: r.taskID}}) {
 				a.say("HANG %d", i)
 				return
 			}
 			if r.loopEnded() {
 				a.say("RES %d loopexit", i)
+				break
+			}
+			if hadTerminal {
+				// The task's terminal status is already out and the loop survived the request (not what the code
+				// as it stands does): nothing more is owed. Leave a moment for anything that still comes.
+				time.Sleep(250 * time.Millisecond)
+				a.say("RES %d ignored", i)
 				break
 			}
 			if !r.waitFor(func() bool {
@@ -634,14 +646,14 @@ func runnerMain(input, dir string) {
 	}
 	a.say("OP %d end", ops.Len()+1)
 	// final settle: the armed TASK_RUNNING timer of a basic/hook task always fires
-	if launched && r.kind != "ctl" && !r.loopEnded() {
+	if launched && (r.kind == "basic" || r.kind == "hook") && !r.loopEnded() {
 		if early() {
 			a.say("INCONCLUSIVE running timer fired before its position in the schedule")
 			return
 		}
 		if !r.waitFor(sawRunning, stepCeiling) {
-			a.say("INCONCLUSIVE running timer never fired")
-			return
+			// 75 times the timer's delay: reported as "did not fire", and only if it reproduces
+			a.say("NOTIMER")
 		}
 	}
 	// survivors: give signals a moment to land, then look
